@@ -35,7 +35,7 @@ ASSUMPTIONS = [
 ]
 PROBES = ["restart_after_other_use", "feature_all_steps", "resim_old_buffers_checked", "shared_underlier_resim",
           "prev_output_corrupted_then_hedged", "model_raise_then_hedged", "hedger_cast", "listed_hedge",
-          "lazy_model", "requires_grad_flag_flipped", "kept_feature_reused"]
+          "lazy_model", "requires_grad_flag_flipped", "kept_feature_reused", "listed_quote_vs_fresh_pricer"]
 
 
 class SimFault(Exception):
@@ -240,7 +240,7 @@ def generate(rng):
                 simk[ul] = d["_k"]
             emit(op, actor)
         elif kind == "quant":
-            qk = rng.wchoice([("payoff", 2), ("feature", 5), ("listed_spot", 1), ("bs_bound", 2), ("bs_explicit", 2),
+            qk = rng.wchoice([("payoff", 2), ("feature", 5), ("listed_spot", 3), ("bs_bound", 2), ("bs_explicit", 2),
                               ("autogreek", 1), ("criterion", 2), ("functional", 2), ("pl_view", 1), ("crit_on_pl", 1)])
             if qk in ("payoff", "feature", "listed_spot", "bs_bound", "pl_view", "crit_on_pl"):
                 cands = [d for d in derivs if sim[d["underlier"]] is not None and not too_short(d)]
@@ -687,7 +687,16 @@ def _do_quant(world, op, stats, hist, seq):
         if k == "payoff":
             out = world.derivatives[op["derivative"]].payoff()
         elif k == "listed_spot":
-            out = world.derivatives[op["derivative"]].spot
+            from ..world import make_pricer
+            dl = world.derivatives[op["derivative"]]
+            out = dl.spot
+            spec_l = world.spec_of("derivatives", op["derivative"])
+            ref = make_pricer(spec_l["listed"]["pricer"])(dl)   # the pricer evaluated afresh on the current series
+            stats.checks += 1
+            stats.probe("listed_quote_vs_fresh_pricer")
+            if not bit_equal(out.detach(), ref.detach()):
+                raise Violation(ID, "history_dependent", "listed_derivative.spot", {"quoted": out, "pricer_on_current_series": ref}, seq)
+            hazard = True
         elif k == "feature":
             d = world.derivatives[op["derivative"]]
             import json as _json
